@@ -5,27 +5,8 @@
 (* are the stated maps; nothing mutates operands or arguments) and for     *)
 (* property C15 (derived quantities, module CorrDerived).                  *)
 (***************************************************************************)
-EXTENDS CorrOps, CorrDerived, TraceBase
+EXTENDS CorrArith, CorrCompare, CorrDerived, TraceBase
 VARIABLE l
-
-R9 == "1/1000000000"
-Atol(s) == RMul("1/100000000000", RAdd("1/1000000000000000000", s))
-
-\* ---- comparison of correlators ------------------------------------------------------------------------------
-PartClose(x, y, sc) ==       \* x observed part of a complex slot ("r" or "n"), y expected real slot
-  IF x.k = "r" THEN SlotClose(x, y, R9, Atol(sc))
-  ELSE IF x.k = "n" THEN RClose(x.v, y.v, R9, Atol(sc)) /\ RMaxAbsSeq(y.d) = "0"
-  ELSE FALSE
-EntryClose(x, y, sc) ==      \* y expected: [k "r"..] or [k "c", re, im]
-  IF y.k = "r" THEN SlotClose(x, y, R9, Atol(sc))
-  ELSE x.k = "c" /\ PartClose(x.re, y.re, sc) /\ PartClose(x.im, y.im, sc)
-SliceScale(s) == IF IsNone(s) THEN "0" ELSE FoldSeq(LAMBDA row, acc : FoldSeq(LAMBDA x, a2 : RMax(a2, SlotScale(x)), acc, row), "0", s.m)
-CorrScale(c) == FoldSeq(LAMBDA s, acc : RMax(acc, SliceScale(s)), "0", c.content)
-SliceClose(x, y, sc) == IF IsNone(y) THEN IsNone(x)
-                        ELSE /\ ~IsNone(x) /\ Len(x.m) = Len(y.m)
-                             /\ \A i \in DOMAIN y.m : Len(x.m[i]) = Len(y.m[i]) /\ \A j \in DOMAIN y.m[i] : EntryClose(x.m[i][j], y.m[i][j], sc)
-MaskOf(c) == [t \in 1..c.T |-> IsNone(c.content[t])]
-AllNone(c) == \A t \in 1..c.T : IsNone(c.content[t])
 
 \* judge an observed result (correlator or exception) against the expected correlator
 Judge(id, what, res, exp, sc) ==
@@ -37,39 +18,6 @@ Judge(id, what, res, exp, sc) ==
        /\ res.c.T = exp.T =>
             /\ Verdict(id, what \o ": undefined timeslices", MaskOf(res.c) = MaskOf(exp))
             /\ MaskOf(res.c) = MaskOf(exp) => Verdict(id, what \o ": entries", \A t \in 1..exp.T : SliceClose(res.c.content[t], exp.content[t], sc))
-
-\* ---- arithmetic ---------------------------------------------------------------------------------------------
-LeavesOf(x) == IF x.k = "c" THEN <<x.re, x.im>> ELSE <<x>>
-CExprOf(x, off) == IF x.k = "c" THEN [op |-> "cvar", re |-> off + 1, im |-> off + 2] ELSE [op |-> "rvar", i |-> off + 1]
-RExprOf(x, off) == IF x.k = "n" THEN C(x.v) ELSE [op |-> "var", i |-> off + 1]
-IsCx(x) == x.k = "c"
-\* expected entry of  self (op) partner  /  partner (op) self
-BinEntry(op, s, p, selfLeft, n) ==
-  IF ~IsCx(s) /\ ~IsCx(p)
-  THEN LET e == IF selfLeft THEN B(op, RExprOf(s, 0), RExprOf(p, 1)) ELSE B(op, RExprOf(p, 1), RExprOf(s, 0))
-           leaves == <<s, p>>
-       IN IF ApplyDefined(e, leaves) THEN Apply(e, leaves, n) ELSE None
-  ELSE LET ls == LeavesOf(s)  lp == LeavesOf(p)  leaves == ls \o lp
-           es == CExprOf(s, 0)  ep == CExprOf(p, Len(ls))
-           ce == Complexify(IF selfLeft THEN B(op, es, ep) ELSE B(op, ep, es))
-       IN IF ApplyDefined(ce.re, leaves) /\ ApplyDefined(ce.im, leaves)
-          THEN [k |-> "c", re |-> Apply(ce.re, leaves, n), im |-> Apply(ce.im, leaves, n)] ELSE None
-\* partner at timeslice t, entry (i,j): a correlator partner with N = 1 broadcasts over the matrix, as does a scalar
-PartnerEntry(p, t, i, j) == IF p.k = "corr" THEN (IF p.c.N = 1 THEN Entry(p.c, t, 1, 1) ELSE Entry(p.c, t, i, j)) ELSE p.x
-PartnerNone(p, t) == p.k = "corr" /\ IsNone(At(p.c, t))
-SelfEntry(a, t, i, j) == IF a.N = 1 THEN Entry(a, t, 1, 1) ELSE Entry(a, t, i, j)
-Arith(a, op, p, selfLeft, n) ==
-  LET N == IF p.k = "corr" /\ p.c.N > a.N THEN p.c.N ELSE a.N IN
-  MkCorr(a.T, N, LAMBDA t :
-     IF IsNone(At(a, t)) \/ PartnerNone(p, t) THEN None
-     ELSE LET m == [i \in 1..N |-> [j \in 1..N |-> BinEntry(op, SelfEntry(a, t, i, j), PartnerEntry(p, t, i, j), selfLeft, n)]]
-          IN IF \E i, j \in 1..N : m[i][j] = None THEN None ELSE Mat(m))
-Func(a, fn, n) ==
-  MkCorr(a.T, a.N, LAMBDA t :
-     IF IsNone(At(a, t)) THEN None
-     ELSE LET e == U(fn, [op |-> "var", i |-> 1])
-              ok == \A i, j \in 1..a.N : ApplyDefined(e, <<Entry(a, t, i, j)>>)
-          IN IF ~ok THEN None ELSE Mat([i \in 1..a.N |-> [j \in 1..a.N |-> Apply(e, <<Entry(a, t, i, j)>>, n)]]))
 
 Normalise(v) == LET nrm == RSqrt(RDot(v, v)) IN RScaleSeq(RDiv("1", nrm), v)
 ProjectedList(c, vls, vrs, norm, n) == MkCorr(c.T, 1, LAMBDA t :
